@@ -287,6 +287,23 @@ Lemma rmx_sites r th :
   end.
 Proof. unfold rmx_label. destruct (xpc th); try exact I; reflexivity. Qed.
 
+(* the label of a step is determined by the mx_event of that step (acquire / unlock steps are the
+   successful CAS or AddInt32; a failed TryLock only read the word) *)
+Lemma rmx_labels_match_events r t th :
+  match snd (mx_step_th r t th) with
+  | XEAcq _ | XEUnlocked => rmx_label false r th = [RAcqRel rmx_word]
+  | XETryFail => rmx_label false r th = [RAcq rmx_word]
+  | XEInv | XESkip | XEBlocked | XERet | XENone => rmx_label false r th = []
+  | _ => True
+  end.
+Proof.
+  destruct th as [pc h todo]. unfold mx_step_th, rmx_label, rmx_tcas, rmx_tload, rmx_cas.
+  cbn [xpc xh xtodo].
+  destruct pc; [destruct todo as [|[sp st| |] rest]| | | | | destruct t | | | | | | | | |];
+    repeat match goal with |- context [if ?c then _ else _] => destruct c eqn:? end; cbn [snd];
+    try reflexivity; try exact I.
+Qed.
+
 (* ------------------------------------------------------------------ the faulty variant races *)
 Lemma rmx_trylock_plain_refuted :
   hb_race (rmx_trace_gen true (mx_init [[XTryLock]; [XTryLock]]) [RmxRun 0; RmxRun 1; RmxRun 0; RmxRun 1]).
